@@ -96,6 +96,7 @@ type history struct {
 	AutoGC   bool          `json:"autogc"`
 	Graph    []dag.Encoded `json:"graph"`
 	SHA512   []int         `json:"sha512"`          // nodes addressed by sha512 digests
+	Bad      []int         `json:"bad,omitempty"`   // nodes with a manifest media type whose bytes are no JSON
 	Holey    int           `json:"holey,omitempty"` // node with a long run of zeros (0 = none; node 0 is never it)
 	Ops      []string      `json:"ops"`
 	Meta     string        `json:"meta,omitempty"`
@@ -155,6 +156,7 @@ type world struct {
 	g      *dag.Graph
 	byDgst map[digest.Digest]int
 	tagIdx map[string]int
+	bad    map[int]bool
 }
 
 func newWorld(g *dag.Graph) *world {
@@ -594,7 +596,11 @@ func (r *runner) exec(op string) string {
 	case 'P':
 		k, _ := strconv.Atoi(arg)
 		n := g.Nodes[k]
-		res := errTok(r.store.Push(ctx, n.Desc, bytes.NewReader(n.Bytes)))
+		err := r.store.Push(ctx, n.Desc, bytes.NewReader(n.Bytes))
+		res := errTok(err)
+		if err != nil && r.w.bad[k] && !errors.Is(err, errdef.ErrAlreadyExists) {
+			res = "badcontent" // content.Successors cannot decode the manifest
+		}
 		if !r.h.AutoSave && res == "ok" && n.IsManifest() {
 			r.synced = false
 		}
@@ -614,7 +620,14 @@ func (r *runner) exec(op string) string {
 			d.Annotations = ann
 		}
 		ref := d.Digest.String()
-		if f[3] != "d" {
+		if f[3][0] == 'D' { // the digest string of other content (node j; j = #nodes: a digest of nothing)
+			j, _ := strconv.Atoi(f[3][1:])
+			if j < len(g.Nodes) {
+				ref = g.Nodes[j].Desc.Digest.String()
+			} else {
+				ref = digest.FromString("outside the universe").String()
+			}
+		} else if f[3] != "d" {
 			t, _ := strconv.Atoi(f[3])
 			ref = tagPool[t]
 		}
@@ -959,6 +972,12 @@ func (r *runner) generate(rnd *common.Rand, nops int) {
 			ref := strconv.Itoa(t)
 			if rnd.Chance(1, 10) {
 				ref = "d"
+			} else if rnd.Chance(1, 12) {
+				j := rnd.Intn(len(g.Nodes) + 1)
+				if j != k {
+					ref = fmt.Sprintf("D%d", j)
+					run.Count("tag:foreign-digest-reference")
+				}
 			}
 			r.do(fmt.Sprintf("T%d:%d:%s:%s", k, x, a, ref))
 		case c < 69: // untag
@@ -1031,6 +1050,15 @@ func (r *runner) generate(rnd *common.Rand, nops int) {
 	r.do("C")
 }
 
+func isBad(h *history, k int) bool {
+	for _, b := range h.Bad {
+		if b == k {
+			return true
+		}
+	}
+	return false
+}
+
 func caseLine(h *history, g *dag.Graph) string {
 	var b strings.Builder
 	bit := func(x bool) string {
@@ -1060,6 +1088,11 @@ func caseLine(h *history, g *dag.Graph) string {
 		default:
 			fl += "-"
 		}
+		if isBad(h, n.ID) {
+			fl += "x"
+		} else {
+			fl += "-"
+		}
 		su := "-"
 		if len(n.Succ) > 0 {
 			ss := make([]string, len(n.Succ))
@@ -1086,7 +1119,12 @@ func newRunner(h *history) *runner {
 	if err != nil {
 		panic(err)
 	}
-	r := &runner{h: h, w: newWorld(g), dir: filepath.Join(dir, "layout"), synced: true, truth: true,
+	w := newWorld(g)
+	w.bad = map[int]bool{}
+	for _, b := range h.Bad {
+		w.bad[b] = true
+	}
+	r := &runner{h: h, w: w, dir: filepath.Join(dir, "layout"), synced: true, truth: true,
 		id: run.NewID(), failed: map[string]bool{}}
 	if err := r.open(); err != nil {
 		panic(err)
@@ -1139,6 +1177,19 @@ func generateHistory(seed uint64, index int, thorough bool) {
 			Desc: ocispec.Descriptor{MediaType: ocispec.MediaTypeImageLayer, Digest: digest.SHA512.FromBytes(bts), Size: int64(len(bts))}})
 		h.SHA512 = append(h.SHA512, id)
 	}
+	// a blob with a manifest media type that is no JSON manifest, and an index listing it
+	if rnd.Chance(1, 4) {
+		id := len(g.Nodes)
+		bts := []byte(fmt.Sprintf("{not a manifest %x", rnd.U64()))
+		bad := &dag.Node{ID: id, Kind: dag.KImage, Bytes: bts, Subject: -1, TwinOf: -1,
+			Desc: ocispec.Descriptor{MediaType: ocispec.MediaTypeImageManifest, Digest: digest.FromBytes(bts), Size: int64(len(bts))}}
+		ix := ocispec.Index{MediaType: ocispec.MediaTypeImageIndex, Manifests: []ocispec.Descriptor{bad.Desc}}
+		ix.SchemaVersion = 2
+		ib, _ := json.Marshal(ix)
+		g.Nodes = append(g.Nodes, bad, &dag.Node{ID: id + 1, Kind: dag.KIndex, Bytes: ib, Succ: []int{id}, Subject: -1, TwinOf: -1,
+			Desc: ocispec.Descriptor{MediaType: ocispec.MediaTypeImageIndex, Digest: digest.FromBytes(ib), Size: int64(len(ib))}})
+		h.Bad = append(h.Bad, id)
+	}
 	// a layer with a long run of zero bytes: real tar tools store it as a sparse member
 	if rnd.Chance(1, 3) {
 		id := len(g.Nodes)
@@ -1190,6 +1241,11 @@ func replay(path string) {
 			}
 			if s, ok := c["sha512"]; ok && s != "null" {
 				if err := json.Unmarshal([]byte(s), &h.SHA512); err != nil {
+					panic(err)
+				}
+			}
+			if v, ok := c["bad"]; ok && v != "null" {
+				if err := json.Unmarshal([]byte(v), &h.Bad); err != nil {
 					panic(err)
 				}
 			}
